@@ -319,6 +319,24 @@ def run_disp_impl(case):
             def __getitem__(self, k):
                 return dict.__getitem__(self, k).call
         handlers = [_Fresh({k: _H(fn) for k, fn in d.items()}) for d in handlers]
+    elif case.get("partials"):
+        # handlers given as functools.partial objects of ONE function, each binding its own (empty, hence equal) list:
+        # they are different handlers all the same
+        import functools
+        ident, boxes = {}, []
+
+        def _common(box, instance, *args):
+            return ident[id(box)](instance, *args)
+        shaped = []
+        for d in handlers:
+            nd = {}
+            for k, fn in d.items():
+                box = []
+                boxes.append(box)
+                ident[id(box)] = fn
+                nd[k] = functools.partial(_common, box)
+            shaped.append(nd)
+        handlers = shaped
     out = []
     simrun = []
     for op in case["ops"]:
@@ -459,6 +477,22 @@ def run_trip_impl(case):
                         note = " returned-differs-from-goto"
                 elif op[0] == "telem":
                     deliver(Telemetry(tuple(op[1])))
+                elif op[0] == "init+telem":
+                    # a foreign telemetry handler that was registered while the trip is under way (so it runs BEFORE the trip's
+                    # own hook) starts the trip again from inside the dispatch -- the documented way to restart
+                    def restarter(instance, telemetry):
+                        plugin.initiate_random_trip()
+                        tg = plugin.current_target
+                        out.append("ongoing %d target %s draws %d" % (int(bool(plugin.trip_ongoing)),
+                                   "none" if tg is None else "%s %s %s" % tuple(fhex(x) for x in tg), draws[0])
+                                   + _cmds(proto.provider.cmds))
+                        proto.provider.cmds = []
+                        return DispatchReturn.CONTINUE
+                    create_dispatcher(proto).register_handle_telemetry(restarter)
+                    try:
+                        deliver(Telemetry(tuple(op[1])))
+                    finally:
+                        create_dispatcher(proto).unregister_handle_telemetry(restarter)
                 elif op[0] in ("telem+finish", "telem+init"):
                     # the protocol's own handle_telemetry (last in the chain) calls the plugin
                     def inner(_t, which=op[0]):
@@ -504,6 +538,10 @@ def trip_to_text(sid, case, stream):
         elif op[0] in ("telem+finish", "telem+init"):
             body.append("telem %s %s %s" % tuple(fhex(x) for x in op[1]))
             body.append("finish" if op[0] == "telem+finish" else "init")
+            n += 2
+        elif op[0] == "init+telem":
+            body.append("init")
+            body.append("telem %s %s %s" % tuple(fhex(x) for x in op[1]))
             n += 2
         else:
             body.append(op[0])
